@@ -3,12 +3,15 @@
 
     W <op>;<op>;…            →  <hex of writeAll> <written>
     R <op>;<op>;… <hex>      →  ok <op>;<op>;… <rest length>   |  fail
+    RS <op>;<op>;… <hex>,<hex>,…  →  the same read over a connection that delivers these fragments
+                                 (`z` = a read of 0 bytes); rest length = bytes still to arrive
                                  (payloads of the ops on an R line are ignored: kinds only)
     LS <w> <hex> / LU <w> <hex>  →  signed / unsigned little-endian read of w bytes
 
   op syntax  kind:payload   (ints decimal, bytes hex, lists comma separated, empty = "-")
 -/
 import Golib.Prim.Extra
+import Golib.Prim.Stream
 import Driver.Common
 
 open Prim Drv
@@ -86,6 +89,13 @@ def answer (line : String) : String :=
     | some ops, some bs =>
       match P.run (readAll ops) bs with
       | some (vs, rest) => s!"ok {listOfOps vs} {rest.length}"
+      | none => "fail"
+    | _, _ => "bad-op"
+  | ["RS", ops, frags] =>
+    match parseOps ops, parseList ofHexElem frags with
+    | some ops, some fs =>
+      match P.runC (readAll ops) fs with
+      | some (vs, rest) => s!"ok {listOfOps vs} {rest.flatten.length}"
       | none => "fail"
     | _, _ => "bad-op"
   | ["LS", w, hex] =>
